@@ -97,20 +97,24 @@ example : scanWrites 1 3 = [0, 1, 2, 3, 4] := by decide
 example : scanFrom savecBound.toNat 7 = [savecBound.toNat] ∧ scanFrom (savecBound.toNat - 1) 7 = [savecBound.toNat - 1, savecBound.toNat] := by
   decide
 
-/-- **idents_restored** — the "compiler stays reusable" clause at model level.  After `clean_up_locals()` (which
-    both `epilog` and `clean_parser` run), whatever events preceded it — in particular whatever prefix of a
-    function was parsed before an error, with any number of open or abandoned function literals — every identifier
-    has given back all `sem_value` references taken for local variables, has no local binding left, and no
-    access went outside the tables on the way. -/
-theorem idents_restored (N : Nat) (evs : List Ev) :
-    let p := runLI (Loc.init N, Ids.init) (evs ++ [.cleanup])
-    p.1.bad = false ∧ p.2.bad = false ∧ ∀ j, p.2.refs j = 0 ∧ p.2.lnum j = -1 := by
+/-- **idents_restored** — the "compiler stays reusable" clause at model level, for every name space of every
+    identifier.  After the end-of-compile cleanup (`clean_up_locals()` + `free_unused_identifiers()`, which both `epilog`
+    and `clean_parser` run), whatever events preceded it — any mix of local declarations, function / global variable /
+    class definitions under the same name (also names of efuns and simul efuns, `P` = the permanent identifiers), any
+    prefix of a function parsed before an error, any number of open or abandoned function literals — every identifier
+    has `sem_value` back at its initial value and no local, function, global-variable or class binding left, the
+    dirty list is empty, and no access went outside the tables on the way. -/
+theorem idents_restored (N : Nat) (P : Id → Bool) (evs : List Ev) :
+    let p := runLI (Loc.init N, Ids.init P) (evs ++ [.cleanup])
+    p.1.bad = false ∧ p.2.bad = false ∧ p.2.dirty = [] ∧
+    ∀ j, p.2.refs j = 0 ∧ p.2.lnum j = -1 ∧ ∀ k, p.2.bnd k j = -1 := by
   intro p
-  have h0 := runLI_inv evs (Loc.init N, Ids.init) (liInv_init N)
-  have hp : p = stepLI (runLI (Loc.init N, Ids.init) evs) .cleanup := by
+  have h0 := runLI_inv evs (Loc.init N, Ids.init P) (liInv_init N P)
+  have hp : p = stepLI (runLI (Loc.init N, Ids.init P) evs) .cleanup := by
     simp only [p, runLI, List.foldl_append, List.foldl_cons, List.foldl_nil]
   have h1 := stepLI_inv _ .cleanup h0
-  rw [← hp] at h1
+  have hpost := cleanup_post _ h0
+  rw [← hp] at h1 hpost
   have hlen := h1.len
   have hshape : p.1.lOff = 0 ∧ p.1.cur = 0 := by
     rw [hp]
@@ -118,9 +122,18 @@ theorem idents_restored (N : Nat) (evs : List Ev) :
     exact ⟨trivial, trivial⟩
   rw [hshape.1, hshape.2] at hlen
   have hnil : p.2.live = [] := List.eq_nil_of_length_eq_zero hlen
-  refine ⟨h1.loc.notBad, h1.ids.notBad, fun j => ⟨?_, ?_⟩⟩
+  have hbnd : ∀ j k, p.2.bnd k j = -1 := by
+    intro j k
+    by_cases hpj : p.2.perm j = true
+    · by_cases hz : p.2.bsum j = 0
+      · exact bsum_eq_zero.mp hz k
+      · have := h1.ids.dirtyOk j hpj hz
+        rw [hpost.1] at this
+        simp at this
+    · exact hpost.2 j (by simpa using hpj) k
+  refine ⟨h1.loc.notBad, h1.ids.notBad, hpost.1, fun j => ⟨?_, ?_, hbnd j⟩⟩
   · have := h1.ids.refs j
-    rw [hnil] at this
+    rw [hnil, bsum_eq_zero.mpr (hbnd j)] at this
     simpa using this
   · by_cases hj : p.2.lnum j = -1
     · exact hj
@@ -129,8 +142,9 @@ theorem idents_restored (N : Nat) (evs : List Ev) :
       simp at this
 
 example :
-    let p := runLI (Loc.init 25, Ids.init) [.addLocal "time" true 1, .popN 0, .addLocal "time" true 2, .popN 1]
-    p.2.refs "time" = 1 ∧ p.2.lnum "time" = -1 := by decide
+    let p := runLI (Loc.init 25, Ids.init (fun j => j == "write"))
+      [.bind .glob "write" true 0 1, .bind .fn "write" true 0 2, .addLocal "write" true 3]
+    p.2.refs "write" = 3 ∧ p.2.bnd .glob "write" = 0 ∧ p.2.bnd .fn "write" = 0 ∧ p.2.dirty = ["write"] := by decide
 
 /-- **locals_reset_after_cleanup** — after `clean_up_locals()` the cursors of the locals tables are back at the
     start of the tables and no function literal is open, for every preceding event sequence. -/
